@@ -22,6 +22,15 @@ impl NetworkFilterMask {
     {
         if value { self.bits = self.bits | other.bits; } else { self.bits = self.bits & !other.bits; }
     }
+
+    // further bitflags operations a maintainer may reach for (same trusted reading of bitflags 2.x)
+    pub fn intersects(&self, other: NetworkFilterMask) -> (r: bool) ensures r == (self.bits & other.bits != 0) { self.bits & other.bits != 0 }
+    pub fn insert(&mut self, other: NetworkFilterMask) ensures final(self).bits == old(self).bits | other.bits { self.bits = self.bits | other.bits; }
+    pub fn remove(&mut self, other: NetworkFilterMask) ensures final(self).bits == old(self).bits & !other.bits { self.bits = self.bits & !other.bits; }
+    pub fn toggle(&mut self, other: NetworkFilterMask) ensures final(self).bits == old(self).bits ^ other.bits { self.bits = self.bits ^ other.bits; }
+    pub fn union(self, other: NetworkFilterMask) -> (r: NetworkFilterMask) ensures r.bits == self.bits | other.bits { NetworkFilterMask { bits: self.bits | other.bits } }
+    pub fn intersection(self, other: NetworkFilterMask) -> (r: NetworkFilterMask) ensures r.bits == self.bits & other.bits { NetworkFilterMask { bits: self.bits & other.bits } }
+    pub fn difference(self, other: NetworkFilterMask) -> (r: NetworkFilterMask) ensures r.bits == self.bits & !other.bits { NetworkFilterMask { bits: self.bits & !other.bits } }
 }
 
 pub open spec fn mask_or(a: NetworkFilterMask, b: NetworkFilterMask) -> NetworkFilterMask { NetworkFilterMask { bits: a.bits | b.bits } }
